@@ -52,11 +52,14 @@ impl MultiPattern {
         let old_status = self.cols[column].1;
         if append
             && old_status != Status::Rescore
-            && self.cols[column]
-                .0
-                .atoms
-                .last()
-                .map_or(true, |last| !last.negative)
+            && self.cols[column].0.atoms.last().map_or(true, |last| {
+                // appending to a negative atom can only match more items. The same is
+                // true if the old text ended with a `$` marker or a backslash: these are
+                // reinterpreted (literal `$`/escape sequence) once text is appended.
+                !last.negative
+                    && !matches!(last.kind, AtomKind::Postfix | AtomKind::Exact)
+                    && last.needle_text().chars().next_back() != Some('\\')
+            })
         {
             self.cols[column].1 = Status::Update;
         } else {
